@@ -551,12 +551,12 @@ Proof.
       repeat split; cbn [combine]; rewrite E; reflexivity.
 Qed.
 
-Lemma init_inv (est : Z -> Z -> Z) g S : 1 <= ncols g -> 2 <= nrows g ->
-  Inv g S 0 (init_state g) (init_cst g).
+Lemma start_inv (est : Z -> Z -> Z) g S next ext prev : 1 <= ncols g -> 2 <= nrows g ->
+  Inv g S 0 (start_state g next ext prev) (start_cst g next ext).
 Proof.
   intros Hc Hr. destruct (Wpos est g Hc Hr) as (HW & Hfs & Hn).
   assert (Hr1 : 1 <= nrows g) by lia.
-  constructor; cbn [init_state init_cst init_dstate k_D k_R k_fpos k_next k_ext k_last k_scale k_realigned
+  constructor; cbn [start_state start_cst start_dstate k_D k_R k_fpos k_next k_ext k_last k_scale k_realigned
                     s_pend s_d d_next d_ext d_mix]; try reflexivity; try lia.
   - rewrite zlen_map, zlen_zrange; lia.
   - rewrite zlen_map, zlen_zrange; lia.
@@ -567,13 +567,14 @@ Proof.
     rewrite (znth_map _ 0) by (rewrite zlen_zrange; lia). split; reflexivity.
 Qed.
 
-Lemma model_passes_check_proof :
-  forall est g nsamp ops,
-    C04_check {| c_g := g; c_nsamp := nsamp; c_gap := None |}
-              (combine ops (run est true g nsamp (init_state g) ops)) = true.
+(* every run of a source object, whatever frame number, trigger level and block time the previous run left *)
+Lemma model_passes_check_from_proof :
+  forall est g nsamp next ext prev ops,
+    C04_check_from {| c_g := g; c_nsamp := nsamp; c_gap := None |} next ext
+                   (combine ops (run est true g nsamp (start_state g next ext prev) ops)) = true.
 Proof.
-  intros est g nsamp ops. unfold C04_check.
-  destruct (run_prefix est g nsamp ops (init_state g)) as (ops1 & ops2 & _ & Hfst & Hh).
+  intros est g nsamp next ext prev ops. unfold C04_check_from.
+  destruct (run_prefix est g nsamp ops (start_state g next ext prev)) as (ops1 & ops2 & _ & Hfst & Hh).
   rewrite Hfst, Hh.
   destruct (stream_wf _ (stream_of ops1) && stamps_increasing ops1) eqn:Ewf; [|reflexivity].
   apply andb_true_iff in Ewf as [Ewf _]. unfold stream_wf in Ewf. cbn [c_g c_nsamp c_gap] in Ewf.
@@ -589,7 +590,13 @@ Proof.
     - destruct Hfs as (_ & -> & HW). now rewrite mod4W by lia.
     - replace (4 * k + 2) with (2 + k * 4) by lia. now rewrite Z_mod_plus_full. }
   cbn [c_g].
-  apply (glue_run est g nsamp Hc Hr S Hbits ops1 [] (init_state g) (init_cst g)).
+  apply (glue_run est g nsamp Hc Hr S Hbits ops1 [] (start_state g next ext prev) (start_cst g next ext)).
   - reflexivity.
-  - apply (init_inv est); assumption.
+  - apply (start_inv est); assumption.
 Qed.
+
+Lemma model_passes_check_proof :
+  forall est g nsamp ops,
+    C04_check {| c_g := g; c_nsamp := nsamp; c_gap := None |}
+              (combine ops (run est true g nsamp (init_state g) ops)) = true.
+Proof. intros. apply (model_passes_check_from_proof est g nsamp 0 false 0). Qed.
